@@ -171,7 +171,7 @@ impl CompressionScheme {
     fn vx_decompress_from_take<R: Read, W: Write>(&self, reader: &mut R, take: &mut TakeStub, writer: &mut W) -> (r: Result<u64, CasObjectError>)
         ensures
             /*@AUX*/ final(reader).bytes() == old(reader).bytes(),   // frame: reading never changes the input
-            old(writer).written().is_prefix_of(final(writer).written()),
+            /*@AUX*/ old(writer).written().is_prefix_of(final(writer).written()),
             r matches Ok(n) ==> ({
                 let b = old(reader).bytes(); let p = old(reader).pos();
                 let avail = if p + old(take).limit <= b.len() { old(take).limit as nat } else { (b.len() - p) as nat };
@@ -201,7 +201,7 @@ impl CompressionScheme {
 //@ contract
     ensures
         /*@AUX*/ final(reader).bytes() == old(reader).bytes(),   // frame: reading never changes the input
-        old(writer).written().is_prefix_of(final(writer).written()),
+        /*@AUX*/ old(writer).written().is_prefix_of(final(writer).written()),
         /*@C07*/ r matches Ok(ret) ==> single_ok(old(reader).bytes(), old(reader).pos(), old(writer).written(), final(writer).written(), final(reader).pos(), ret),
 //@ end
 
@@ -225,18 +225,19 @@ impl CompressionScheme {
     proof { assert(w0 + Seq::<u8>::empty() =~= w0); assert(reader.pos() <= b.len()) by { assert(walk_pos(b, p0, 0) == p0); } }
 //@ loop 1
         invariant_except_break
-            reader.pos() == walk_pos(b, p0, k), reader.pos() <= b.len(),
-            writer.written() == w0 + concat_data(b, p0, k),
+            /*@C07*/ reader.pos() == walk_pos(b, p0, k),
+            /*@AUX*/ reader.pos() <= b.len(),
+            /*@C07*/ writer.written() == w0 + concat_data(b, p0, k),
         invariant
-            reader.bytes() == b, b == old(reader).bytes(), p0 == old(reader).pos(), w0 == old(writer).written(), multi_domain(b, p0), p0 <= b.len(),
-            chunk_byte_indices@.len() == k + 1,
-            forall|i: int| 0 <= i <= k ==> chunk_byte_indices@[i] == total_len(b, p0, i as nat),
-            num_uncompressed_written == total_len(b, p0, k),
-            num_compressed_written == claimed_len(b, p0, k),
-            walk_pos(b, p0, k) <= b.len(),
-            (w0 + concat_data(b, p0, k)).is_prefix_of(writer.written()),
+            /*@AUX*/ reader.bytes() == b, b == old(reader).bytes(), p0 == old(reader).pos(), w0 == old(writer).written(), multi_domain(b, p0), p0 <= b.len(),
+            /*@C07*/ chunk_byte_indices@.len() == k + 1,
+            /*@C07*/ forall|i: int| 0 <= i <= k ==> chunk_byte_indices@[i] == total_len(b, p0, i as nat),
+            /*@C07*/ num_uncompressed_written == total_len(b, p0, k),
+            /*@C07*/ num_compressed_written == claimed_len(b, p0, k),
+            /*@AUX*/ walk_pos(b, p0, k) <= b.len(),
+            /*@C07*/ (w0 + concat_data(b, p0, k)).is_prefix_of(writer.written()),
         ensures
-            (w0 + concat_data(b, p0, k)).is_prefix_of(writer.written()),
+            /*@C07*/ (w0 + concat_data(b, p0, k)).is_prefix_of(writer.written()),
         decreases b.len() - walk_pos(b, p0, k),
 //@ before `num_compressed_written += delta_written;`
                 proof {
@@ -283,7 +284,7 @@ fn async_deserialize_chunk_header<R: AsyncRead + Unpin>(reader: &mut R) -> (r: R
 //@ contract
     ensures
         /*@AUX*/ final(reader).bytes() == old(reader).bytes(),   // frame: reading never changes the input
-        old(writer).written().is_prefix_of(final(writer).written()),
+        /*@AUX*/ old(writer).written().is_prefix_of(final(writer).written()),
         /*@C07*/ r matches Ok(ret) ==> single_ok(old(reader).bytes(), old(reader).pos(), old(writer).written(), final(writer).written(), final(reader).pos(), ret)
             && well_formed_at(old(reader).bytes(), old(reader).pos()),
 //@ end
@@ -311,18 +312,19 @@ fn async_deserialize_chunk_header<R: AsyncRead + Unpin>(reader: &mut R) -> (r: R
     proof { assert(w0 + Seq::<u8>::empty() =~= w0); assert(reader.pos() <= b.len()) by { assert(walk_pos(b, p0, 0) == p0); } }
 //@ loop 1
         invariant_except_break
-            reader.pos() == walk_pos(b, p0, k), reader.pos() <= b.len(),
-            writer.written() == w0 + concat_data(b, p0, k),
+            /*@C07*/ reader.pos() == walk_pos(b, p0, k),
+            /*@AUX*/ reader.pos() <= b.len(),
+            /*@C07*/ writer.written() == w0 + concat_data(b, p0, k),
         invariant
-            reader.bytes() == b, b == old(reader).bytes(), p0 == old(reader).pos(), w0 == old(writer).written(), multi_domain(b, p0), p0 <= b.len(),
-            chunk_byte_indices@.len() == k + 1,
-            forall|i: int| 0 <= i <= k ==> chunk_byte_indices@[i] == total_len(b, p0, i as nat),
-            num_uncompressed_written == total_len(b, p0, k),
-            num_compressed_written == claimed_len(b, p0, k),
-            walk_pos(b, p0, k) <= b.len(),
-            (w0 + concat_data(b, p0, k)).is_prefix_of(writer.written()),
+            /*@AUX*/ reader.bytes() == b, b == old(reader).bytes(), p0 == old(reader).pos(), w0 == old(writer).written(), multi_domain(b, p0), p0 <= b.len(),
+            /*@C07*/ chunk_byte_indices@.len() == k + 1,
+            /*@C07*/ forall|i: int| 0 <= i <= k ==> chunk_byte_indices@[i] == total_len(b, p0, i as nat),
+            /*@C07*/ num_uncompressed_written == total_len(b, p0, k),
+            /*@C07*/ num_compressed_written == claimed_len(b, p0, k),
+            /*@AUX*/ walk_pos(b, p0, k) <= b.len(),
+            /*@C07*/ (w0 + concat_data(b, p0, k)).is_prefix_of(writer.written()),
         ensures
-            (w0 + concat_data(b, p0, k)).is_prefix_of(writer.written()),
+            /*@C07*/ (w0 + concat_data(b, p0, k)).is_prefix_of(writer.written()),
         decreases b.len() - walk_pos(b, p0, k),
 //@ before `num_compressed_written += delta_written;`
                 proof {
